@@ -299,7 +299,7 @@ def apache_doc(rng, idx, outdir, fault_wanted):
 
     lines = []          # text lines
     stream = []         # expected callback lines
-    state = dict(count=0, fault=None)
+    state = dict(count=0, fault=None, longdoc=(idx % 12 == 7))
     fault_kinds = ['count', 'type', 'scope', 'unknown', 'unclosed', 'mismatch'] if fault_wanted else []
     fault_kind = rng.choice(fault_kinds) if fault_kinds else None
     if fault_kind == 'unknown' and (ignore_unknown or defcb):
@@ -341,6 +341,11 @@ def apache_doc(rng, idx, outdir, fault_wanted):
         elif fk == 'count':
             fk = 'type'
         vals = [gen_value(rng, argtype(o, j)) for j in range(1, nargs + 1)]
+        # lines of any length are well-formed: now and then one string argument is 1000..6000 characters long (the line then crosses 4 KiB)
+        if state.get('longdoc') and rng.random() < 0.3:
+            strs = [j for j in range(1, nargs + 1) if argtype(o, j) == STR]
+            if strs:
+                vals[rng.choice(strs) - 1] = ''.join(rng.choice(ARGCH) for _ in range(rng.choice([1000, 4000, 4080, 4090, 4096, 4200, 6000])))
         badpos = None
         if fk == 'type':
             typed = [j for j in range(1, nargs + 1) if argtype(o, j) != STR]
